@@ -8,4 +8,4 @@ Extraction "m_tok.ml"
   mem_tbl lenN takeN dropN
   cs_mem cs_plus cs_minus cs_complement cs_add cs_remove cs_addRange cs_of_string empty_storage
   tok_prefix tok_suffix tok_skipAll tok_skipOne tok_skipChar tok_skip tok_skipSuffix
-  tok_skipOneTrailing tok_skipAllTrailing tok_token tok_int64.
+  tok_skipOneTrailing tok_skipAllTrailing tok_token tok_int64 ref_int64 parse_offset parse_int.
